@@ -278,6 +278,9 @@ class Index:
         f = m.functions.get(qualname)
         if f is None:
             raise AnchorMissing(f"function {qualname} not found in {m.relpath}")
+        if not hasattr(self, "accessed"):
+            self.accessed = set()
+        self.accessed.add((m.relpath, qualname))  # which functions the rules anchor on (used by the mutation probe)
         return f
 
     def try_func(self, module: str, qualname: str) -> FuncInfo | None:
